@@ -437,6 +437,10 @@ type StreamSlotRecord struct {
 	ExitErr  string
 	WriteErr string
 	Blocked  bool // the handler is (about to be) blocked in Read
+	// after Read failed the handler tries one more Write and Read and records their errors
+	LaterWriteErr string
+	LaterReadErr  string
+	LaterDone     bool
 }
 
 // SetStreamPlan installs the plan of a slot (0..3) before the stream is opened.
@@ -505,14 +509,28 @@ func (e *Env) runStream(slot int, st *HStream) error {
 		err := st.Read(nil, &m)
 		upd(func(r *StreamSlotRecord) { r.Blocked = false })
 		if err != nil {
+			x := []byte("after-end")
+			werr := st.Write(&x)
+			var m2 []byte
+			rerr := st.Read(nil, &m2)
+			upd(func(r *StreamSlotRecord) {
+				if werr != nil {
+					r.LaterWriteErr = werr.Error()
+				}
+				if rerr != nil {
+					r.LaterReadErr = rerr.Error()
+				}
+				r.LaterDone = true
+			})
 			return exit(err)
 		}
 		upd(func(r *StreamSlotRecord) { r.Received = append(r.Received, m) })
 		if p.Behaviour == "echo" || p.Behaviour == "pushfirst" {
 			rm := Transform(m)
 			if err := st.Write(&rm); err != nil {
+				// a write racing the end of the connection may fail with the transport's own error;
+				// the handler goes back to Read, which must then report the shutdown
 				upd(func(r *StreamSlotRecord) { r.WriteErr = err.Error() })
-				return exit(err)
 			}
 		}
 	}
